@@ -14,6 +14,7 @@ pub struct DropScope;
 impl DropScope {
     pub fn new() -> Self {
         crate::alloc::untracked(|| REG.with(|r| { let mut r = r.borrow_mut(); r.clear(); r.reserve(64); }));
+        reset_bogus();
         DropScope
     }
     /// number of ids handed out so far
@@ -50,12 +51,27 @@ fn fresh() -> usize {
     })
 }
 
+thread_local! {
+    static BOGUS: std::cell::Cell<u64> = const { std::cell::Cell::new(0) };
+}
+
+/// Drops of payloads whose id was never handed out (i.e. a `Dc` fabricated from garbage memory).
+pub fn bogus_drops() -> u64 {
+    BOGUS.with(|b| b.get())
+}
+
+pub fn reset_bogus() {
+    BOGUS.with(|b| b.set(0));
+}
+
 fn bump(id: usize) {
     // try_with: a payload leaked into thread teardown must not panic
     let _ = REG.try_with(|r| {
         if let Ok(mut r) = r.try_borrow_mut() {
             if let Some(c) = r.get_mut(id) {
                 *c = c.saturating_add(1);
+            } else {
+                let _ = BOGUS.try_with(|b| b.set(b.get() + 1));
             }
         }
     });
